@@ -2328,3 +2328,249 @@ func normaliseInst(s string) string {
 	}
 	return b.String()
 }
+
+// ---------------------------------------------------------------------------------------------
+// P-IMPORTBLOCK on paths of renderImports
+
+func segToken(sg pseg) string {
+	if sg.Val == nil {
+		return sg.Lit
+	}
+	vb := sg.Verb
+	if vb == "v" {
+		vb = "s"
+	}
+	return "⟦" + vb + "|" + sg.Val.String() + "⟧"
+}
+
+func segsText(segs []pseg) string {
+	var b strings.Builder
+	for _, sg := range segs {
+		b.WriteString(segToken(sg))
+	}
+	return b.String()
+}
+
+func rulePXImportBlock(c *Ctx) []Obligation {
+	o := c.newObs("P-IMPORTBLOCK")
+	f := c.role("renderImports")
+	if f == nil {
+		o.undecided("(*jen.File).renderImports", "anchor", token.NoPos, "anchor lost: no File method with a writer parameter called by File.Render")
+		return o.list
+	}
+	fn := fname(f)
+	imp := "recv." + c.ff("imports")
+	nameF, aliasF := c.ff("defname"), c.ff("defalias")
+	paths, trunc := c.Paths(f, PXConfig{SkipErrEdges: true, Opaque: c.stdOpaque(), MaxVisits: 4, MaxPaths: 60000})
+	if trunc || len(paths) == 0 {
+		o.undecided(fn, "path enumeration", f.Pos(), "%d paths, truncated %v", len(paths), trunc)
+		return o.list
+	}
+	c.stats["paths:"+fn] = len(paths)
+	t := newTally(o, fn, f.Pos())
+	for _, p := range paths {
+		if p.End == "panic" {
+			t.note("printing the import block does not panic", false, "path %s panics", traceOf(p))
+			continue
+		}
+		if !successPath(p) {
+			continue
+		}
+		F := p.Facts
+		// the entries of the import table seen on this path
+		type ent struct{ k, v string }
+		var ents []ent
+		seenIt := map[string]bool{}
+		for _, atom := range p.Order {
+			if strings.HasPrefix(atom, "next(range("+imp+"))@") && strings.HasSuffix(atom, "#0") && F[atom] {
+				base := strings.TrimSuffix(atom, "#0")
+				// several loops over the table yield the same entries again: keep the first loop's
+				it := base[:strings.Index(base, "@")]
+				_ = it
+				ents = append(ents, ent{base + "#1", base + "#2"})
+			}
+		}
+		// if the table is ranged more than once, entries of later loops are different terms; group by loop
+		loops := map[string][]ent{}
+		var loopOrder []string
+		for _, e := range ents {
+			// instance numbers increase along the path; a new loop starts after an exhausted one
+			key := "L"
+			_ = key
+			loops["all"] = append(loops["all"], e)
+		}
+		_ = loopOrder
+		_ = seenIt
+		// output
+		out, other := pathOutput(p, "p0")
+		if len(other) > 0 {
+			t.note("writes go to the writer parameter", false, "path %s writes to %v", traceOf(p), other)
+			continue
+		}
+		// comment renders into the writer appear as events, not as writes: splice them in
+		var stream []string
+		for _, e := range p.Events {
+			switch {
+			case e.Kind == "write" && e.Writer.String() == "p0":
+				stream = append(stream, segsText(e.Segs))
+			case (e.Kind == "call" || e.Kind == "invoke") && e.Name != "" && (strings.HasSuffix(e.Name, "."+c.renderName()) || e.Name == c.renderName()):
+				d := ""
+				for _, a := range e.Args {
+					d += p.Deep(a) + " "
+				}
+				if e.Recv != nil {
+					d = p.Deep(e.Recv) + " " + d
+				}
+				stream = append(stream, "⟦render|"+commentSource(d)+"⟧")
+			case e.Kind == "call" && e.Fn == c.registerFn():
+				t.note("printing the import block registers nothing", false, "path %s calls the registration function", traceOf(p))
+			case e.Kind == "mapupdate" || e.Kind == "store":
+				t.note("printing the import block changes nothing", false, "path %s stores to %s", traceOf(p), e.Recv)
+			}
+		}
+		_ = out
+		got := strings.Join(stream, "")
+		// preamble
+		pre3 := fact3(F, "empty(recv.cgoPreamble)")
+		if !pre3[1] {
+			if v, ok := F["lt(0,len(recv.cgoPreamble))"]; ok {
+				pre3 = [2]bool{!v, true}
+			}
+		}
+		if !pre3[1] {
+			t.note("every path knows whether there is a cgo preamble", false, "path %s writes %q without that test (facts %s)", traceOf(p), got, F)
+			continue
+		}
+		hasPre := !pre3[0]
+		nPre := 0
+		for strings.Contains(got, fmt.Sprintf("⟦render|recv.cgoPreamble[%d]⟧", nPre)) {
+			nPre++
+		}
+		// expected main block
+		var specs []string
+		undecided := ""
+		for _, e := range loops["all"] {
+			isC := fact3(F, eqAtom(`"C"`, e.k))
+			al := fact3(F, e.v+"."+aliasF)
+			if !al[1] {
+				al = fact3(F, imp+"["+e.k+"]."+aliasF)
+			}
+			if hasPre {
+				if !isC[1] {
+					undecided = "entry " + e.k + " is not tested for being \"C\" although a preamble exists"
+					break
+				}
+				if isC[0] {
+					continue // printed with the preamble
+				}
+			}
+			q := "⟦q|" + e.k + "⟧"
+			switch {
+			case isC[1] && isC[0]:
+				// "C" is never given an alias
+			case al[1] && !al[0]:
+			case al[1] && al[0] && isC[1] && !isC[0]:
+				specs = append(specs, "⟦s|"+e.v+"."+nameF+"⟧ "+q, "⟦s|"+imp+"["+e.k+"]."+nameF+"⟧ "+q)
+				continue
+			default:
+				undecided = "entry " + e.k + " is printed without its alias flag and its being \"C\" having been settled"
+			}
+			if undecided != "" {
+				break
+			}
+			specs = append(specs, q, q)
+		}
+		if undecided != "" {
+			t.note("every import line is decided by its entry's alias flag and by whether the path is \"C\"", false, "path %s: %s (facts %s)", traceOf(p), undecided, F)
+			continue
+		}
+		// specs holds two accepted spellings per entry (range value / lookup by key)
+		n := len(specs) / 2
+		alts := func(i int) (string, string) { return specs[2*i], specs[2*i+1] }
+		okMain, rest := false, got
+		switch {
+		case n == 0:
+			okMain = true
+		case n == 1:
+			a, b := alts(0)
+			for _, sp := range []string{a, b} {
+				if strings.HasPrefix(got, "import "+sp+"\n\n") {
+					okMain, rest = true, strings.TrimPrefix(got, "import "+sp+"\n\n")
+				}
+			}
+		default:
+			if strings.HasPrefix(got, "import (\n") {
+				body := strings.TrimPrefix(got, "import (\n")
+				if i := strings.Index(body, ")\n\n"); i >= 0 {
+					lines := strings.Split(strings.TrimSuffix(body[:i], "\n"), "\n")
+					rest = body[i+len(")\n\n"):]
+					used := map[int]bool{}
+					okMain = len(lines) == n && strings.HasSuffix(body[:i], "\n")
+					for _, ln := range lines {
+						found := false
+						for j := 0; j < n; j++ {
+							a, b := alts(j)
+							if !used[j] && (ln == a || ln == b) {
+								used[j], found = true, true
+								break
+							}
+						}
+						if !found {
+							okMain = false
+						}
+					}
+					// printed in sorted order: a sort by a total order precedes the output
+					sorted := false
+					for _, e := range p.Events {
+						if ci, ok := e.In.(ssa.CallInstruction); ok && e.Kind == "call" && isSortCall(ci) {
+							if ok2, _ := sortOrderOK(c, ci); ok2 {
+								sorted = true
+							}
+						}
+					}
+					t.note("several imports are printed in sorted order", sorted, "path %s prints %d import lines without sorting them", traceOf(p), n)
+				}
+			}
+		}
+		t.note("the main block prints every registered entry once — alias and quoted path for aliased entries other than \"C\", the quoted path alone otherwise; \"C\" is left out only if a preamble exists", okMain, "path %s prints %q for %d entries (expected specs %v)", traceOf(p), got, n, specs)
+		if !okMain {
+			continue
+		}
+		// the cgo part
+		want := ""
+		if hasPre {
+			for j := 0; j < nPre; j++ {
+				want += fmt.Sprintf("⟦render|recv.cgoPreamble[%d]⟧\n", j)
+			}
+			want += "import \"C\"\n\n"
+			exhausted := F.Has(fmt.Sprintf("lt(%d,len(recv.cgoPreamble))", nPre), false) || (nPre == 0 && false)
+			t.note("with a preamble: every preamble comment, each followed by exactly one newline, then `import \"C\"` directly", rest == want && exhausted, "path %s prints %q after the main block (expected %q; all %d comments printed: %v)", traceOf(p), rest, want, nPre, exhausted)
+		} else {
+			t.note("without a preamble nothing follows the main block", rest == "", "path %s prints %q after the main block", traceOf(p), rest)
+		}
+	}
+	t.require("the main block prints every registered entry once — alias and quoted path for aliased entries other than \"C\", the quoted path alone otherwise; \"C\" is left out only if a preamble exists",
+		"with a preamble: every preamble comment, each followed by exactly one newline, then `import \"C\"` directly", "without a preamble nothing follows the main block", "several imports are printed in sorted order")
+	t.flush()
+	c.checkArityIndependence(o, f)
+	return o.list
+}
+
+// commentSource: which text a freshly built comment statement / comment value renders, read off its
+// deep form ("&[{comment:recv.cgoPreamble[0]}] …" → "recv.cgoPreamble[0]"); "?" if it is not a
+// comment-only value.
+func commentSource(deep string) string {
+	i := strings.Index(deep, "{comment:")
+	if i < 0 {
+		return "?" + deep
+	}
+	rest := deep[i+len("{comment:"):]
+	j := strings.Index(rest, "}")
+	if j < 0 {
+		return "?" + deep
+	}
+	if strings.Contains(rest[j:], "{comment:") || strings.Contains(deep[:i], "typ:") {
+		return "?" + deep
+	}
+	return rest[:j]
+}
